@@ -44,6 +44,11 @@ ASSUMPTIONS = [
     'no foreign key sits inside the range of the prefix (prefix_clean): ordinary numeric keys in (0, 999999999999999) and text keys inside '
     '(p-000000000000000, p-999999999999999) are queue members by design',
     'value files of queue rows are present and pairwise distinct (qinv); file bookkeeping is the subject of C08',
+    'blocks that do not commit, kind fanout.shard: the queue calls go to one shard object of a FanoutCache (FanoutCache offers no push / pull of its own) '
+    'inside FanoutCache.transact(), which opens a transaction on every shard',
+    'blocks that do not commit: all-or-nothing of a transact block is property C06; here it is what "pushed" and "delivered" mean for calls made inside a '
+    'block (a rolled-back block has pushed and delivered nothing); an exception raised in a nested block is caught by nobody in between (it rolls the '
+    'outermost block back); a block that ends with the death of its process runs in a forked child with its own handle and its calls are not compared',
     'expired-run family: the two twin queues of one history have unrelated prefixes (neither extends the other by "-"), so "same content" is '
     'decided from the pushes alone; the family is checked by the monitors only (the model is compared on the random and fixed histories)',
 ]
@@ -786,6 +791,448 @@ def expired_runs(ctx, res, stats):
 
 
 # ---------------------------------------------------------------------------
+# (a'') prefixes with characters that mean something to SQL pattern matching (GLOB: * ? [ ]; LIKE: % _ and the escape \), quotes,
+# blanks and non-ASCII text.  A prefix is any string: the property quantifies over prefixes, so a queue named 'jobs[eu]' is a queue
+# like any other.  Same generator, same ledger (Monitor) as the sequential histories; monitor only.
+
+META_PREFIXES = ['jobs[eu]', 'a[1]', '[', ']', '[]', 'a]', '[a-z]', 'x[^y]', 'a-[0-9]', 'q[0-9][0-9]', 'a*', '*', '*-*', 'q?', '?', '??????', 'a%', '%', '%-%',
+                 'a_b', '_', '__', 'back\\slash', '\\', 'a\\%', "o'brien", "'", 'say "hi"', '"', 'two words', ' lead', 'trail ', ' ', 'tab\there',
+                 'line\nbreak', 'café', '日本語', 'ü-ß', '\U0001f600', 'a.b', '(a|b)', '{a,b}', '^a$', 'a+', '~', '#1', 'NULL', '0',
+                 'jobs[eu]-5', 'a*-', '%-500000000000000']
+
+
+def meta_directed(p, ref):
+    """The documented discipline on one queue, whatever its name: three items, looked at and taken from both sides, then empty."""
+    T = 1000.0
+
+    def it(op, **a):
+        a['prefix'] = p
+        return {'op': op, 'args': a, 'now': T}
+    return [it('push', v=ref('first-queued-value'), side='back', expire=None, tag=None), it('peek', side='front'), it('peek', side='back'),
+            it('push', v=ref(2), side='back', expire=None, tag='t1'), it('push', v=ref(b'third-' * 3), side='front', expire=None, tag=None),
+            it('peek', side='front'), it('peek', side='back'), it('pull', side='front'), it('pull', side='back'), it('peek', side='front'),
+            it('pull', side='front'), it('pull', side='front'), it('peek', side='back')]
+
+
+def metachar_prefixes(ctx, res, stats, nrandom, length):
+    import random
+    rng = random.Random('C10-metachar-%d' % ctx.seed)
+    agg = stats.setdefault('metachar_prefixes', {'histories': 0, 'calls': 0, 'prefixes': len(META_PREFIXES)})
+    seen = set(v.sig for v in res.violations)
+    hangs = 0
+    plans = [('directed', [p]) for p in META_PREFIXES]
+    for h in range(nrandom):
+        ps = rng.sample(META_PREFIXES, rng.choice([1, 2, 2, 3]))
+        if rng.random() < 0.35:
+            ps.append(rng.choice(PREFIXES))
+        plans.append(('random', ps))
+    for h, (how, ps) in enumerate(plans):
+        if hangs >= 2:
+            break
+        cull_limit = [0, 10][h % 2]
+        policy = ['none', 'least-recently-stored'][(h // 2) % 2]
+        if how == 'directed':
+            cfg = seqdrv.Config(policy=policy, min_file_size=8, cull_limit=cull_limit)
+            objs, index = [], {}
+
+            def ref(o):
+                k = (type(o).__name__, repr(o))
+                if k not in index:
+                    index[k] = len(objs)
+                    objs.append(o)
+                return index[k]
+            hist = meta_directed(ps[0], ref)
+        else:
+            cfg, objs, hist, ps = gen_history(ctx, rng, length, cull_limit, policy, prefixes=ps)
+        r, tr, mon, err = run_history(ctx, cfg, objs, hist, observe=0)
+        shutil.rmtree(r.dir, ignore_errors=True)
+        if tr is None and not isinstance(err, Hang) and len(r.push_gets) > 0:
+            # a call raised: what the calls before it returned is judged all the same (they are run once more, alone)
+            r2, tr2, mon2, err2 = run_history(ctx, cfg, objs, hist[:len(r.push_gets)], observe=0)
+            shutil.rmtree(r2.dir, ignore_errors=True)
+            mon.viol += [x for x in mon2.viol if x[0] not in set(s_ for s_, _, _ in mon.viol)]
+        hangs += int(isinstance(err, Hang))
+        agg['histories'] += 1
+        agg['calls'] += len(hist)
+        for it in hist:
+            res.count(['meta', cfg.cull_limit, cfg.policy, it['op'], sorted(it['args'].items(), key=repr), it['now']], nontrivial=True)
+        for k, v in mon.stats.items():
+            stats.setdefault('monitor', {})[k] = stats.setdefault('monitor', {}).get(k, 0) + v
+        for sig in sorted(set(s for s, _, _ in mon.viol)):
+            if sig in seen:
+                continue
+            seen.add(sig)
+            desc = [d for s, d, _ in mon.viol if s == sig][0]
+            small = shrink(ctx, cfg, objs, hist, sig)
+            case = gen_hist.history_json(objs, small, cfg)
+            case.update({'check': 'seq', 'sig': sig, 'prefixes': [repr(p) for p in ps], 'family': 'metachar_prefixes'})
+            res.violations.append(fw.Violation(sig, desc + ' [queue prefixes %r]' % (ps,), case))
+
+
+# ---------------------------------------------------------------------------
+# (a''') queue calls inside transaction blocks that do not commit.  `with cache.transact(): ...` is all-or-nothing (C06): a block that
+# ends in an exception -- or whose process dies before the COMMIT -- has pushed and delivered nothing.  For the queue this means: an
+# item pulled inside such a block is still queued afterwards and must be delivered, exactly once and in its place, by the pulls that
+# follow; an item pushed inside it is never delivered.  Inside a block the calls see the block's own effects.  Values are file-backed
+# (at or above disk_min_file_size) and inline.  The ledger (Monitor) is saved when the outermost block opens and restored when the
+# block is rolled back.
+
+
+class BlockAbort(Exception):
+    pass
+
+
+class BlockAbortBase(BaseException):
+    pass
+
+
+BLOCK_KINDS = ('cache', 'fanout.cache', 'fanout.shard', 'index')
+
+
+class BlockRunner(QRunner):
+    """QRunner over one queue-carrying cache of the given kind, with the extra history items
+        {'op': 'begin', 'args': {'end': 'commit' | 'abort' | 'abort_base' | 'die'}}      `with <object>.transact():`
+        {'op': 'end', 'args': {}}                                                        the block ends the way its begin says
+    kind: 'cache' = Cache(dir), blocks of cache.transact(); 'fanout.cache' = FanoutCache(dir).cache(name), blocks of that cache;
+    'fanout.shard' = a shard of FanoutCache(dir, shards=2), blocks of FanoutCache.transact() (every shard); 'index' = Index.fromcache
+    (push / pull of the Index, blocks of Index.transact()).  A block that ends with 'die' runs in a forked process with its own handle,
+    which exits (os._exit) inside the block; its calls are recorded as 'skipped'."""
+
+    def __init__(self, ctx, cfg, kind):
+        super().__init__(ctx, cfg, observe_every=0)
+        self.kind = kind
+        self.stack = []         # (context manager, end) of the open blocks, outermost first
+
+    def open_objects(self):
+        """-> (cache that carries the queues, object whose transact() makes the blocks, closers)"""
+        kind, st = self.kind, self.cfg.settings()
+        if kind == 'cache':
+            c = diskcache.Cache(self.dir, **st)
+            return c, c, [c]
+        if kind == 'fanout.cache':
+            fc = diskcache.FanoutCache(self.dir, shards=2)
+            c = fc.cache('queues/jobs', **st)
+            return c, c, [c, fc]
+        if kind == 'fanout.shard':
+            fc = diskcache.FanoutCache(self.dir, shards=2, **{k: v for k, v in st.items() if k != 'size_limit'})
+            return fc._shards[1], fc, [fc]
+        if kind == 'index':
+            c = diskcache.Cache(self.dir, **st)
+            return c, diskcache.Index.fromcache(c), [c]
+        raise ValueError(kind)
+
+    def open(self):
+        self.cache, self.blocker, self.closers = self.open_objects()
+        self.vols = []
+        return self.cache
+
+    def close(self):
+        while self.stack:
+            cm, _ = self.stack.pop()
+            try:
+                cm.__exit__(None, None, None)
+            except Exception:  # noqa
+                pass
+        for c in getattr(self, 'closers', []):
+            try:
+                c.close()
+            except Exception:  # noqa
+                pass
+
+    def queue_call(self, item):
+        if self.kind != 'index' or item['op'] not in ('push', 'pull'):
+            return super().call(item)
+        # the Index spelling of the same calls (no expiry, no tag)
+        a, idx = item['args'], self.blocker
+        if item['op'] == 'push':
+            out = (idx.push(self.objs[a['v']], prefix=a.get('prefix'), side=a.get('side', 'back')), '')
+            try:
+                g = self.cache.get(out[0], default=SENT)
+            except Exception as e:  # noqa
+                g = ('raise', repr(e))
+            self.push_gets.append(g)
+            return out
+        k, v = idx.pull(prefix=a.get('prefix'), default=(SENT, SENT), side=a.get('side', 'front'))
+        self.push_gets.append(None)
+        return ('default' if k is SENT else ((k, v), None, None)), ''
+
+    def die_block(self, items):
+        """the block runs in another process that dies before the COMMIT"""
+        import sys
+        sys.stdout.flush()
+        sys.stderr.flush()
+        pid = os.fork()
+        if pid == 0:
+            try:
+                self.cache, self.blocker, self.closers = self.open_objects()
+                self.stack = []
+                cm = self.blocker.transact()
+                cm.__enter__()
+                for it in items:
+                    if it['op'] in ('begin', 'end'):
+                        continue
+                    try:
+                        self.queue_call(it)
+                    except Exception:  # noqa
+                        pass
+            finally:
+                os._exit(0)
+        os.waitpid(pid, 0)
+
+    def run(self, history):
+        tr = seqdrv.Trace()
+        with instr.Installed(self.clock):
+            self.open()
+            i = 0
+            while i < len(history):
+                item = history[i]
+                self.clock.set(item['now'])
+                op = item['op']
+                if op == 'begin' and item['args'].get('end') == 'die' and not self.stack:
+                    depth, j = 1, i
+                    while depth and j + 1 < len(history):
+                        j += 1
+                        depth += {'begin': 1, 'end': -1}.get(history[j]['op'], 0)
+                    inner = history[i + 1:j] if depth == 0 else history[i + 1:]
+                    self.die_block(inner)
+                    last = j if depth == 0 else len(history) - 1
+                    for x in range(i, last + 1):
+                        self.push_gets.append(None)
+                        res = ('block', 'opened', 0) if x == i else (('block', 'died', 0) if (x == last and depth == 0) else 'skipped')
+                        tr.calls.append({'item': history[x], 'res': res, 'term': '', 'vols': []})
+                    i = last + 1
+                    continue
+                if op == 'begin':
+                    cm = self.blocker.transact()
+                    cm.__enter__()
+                    self.stack.append((cm, item['args'].get('end', 'commit')))
+                    self.push_gets.append(None)
+                    res = ('block', 'opened', len(self.stack) - 1)
+                elif op == 'end':
+                    self.push_gets.append(None)
+                    if not self.stack:
+                        res = ('block', 'noop', 0)
+                    else:
+                        cm, end = self.stack.pop()
+                        if end in ('abort', 'abort_base', 'die'):
+                            # the exception leaves every enclosing block as well (nobody catches it in between)
+                            exc = BlockAbortBase('block ends') if end == 'abort_base' else BlockAbort('block ends')
+                            cm.__exit__(type(exc), exc, None)
+                            while self.stack:
+                                cm, _ = self.stack.pop()
+                                cm.__exit__(type(exc), exc, None)
+                            res = ('block', 'aborted', 0)
+                        else:
+                            cm.__exit__(None, None, None)
+                            res = ('block', 'committed' if not self.stack else 'inner-closed', len(self.stack))
+                else:
+                    res, _ = self.queue_call(item)
+                tr.calls.append({'item': item, 'res': res, 'term': '', 'vols': []})
+                i += 1
+            self.close()
+        return tr
+
+
+class BlockMonitor:
+    """The ledger of Monitor, saved when the outermost block opens and restored when that block is rolled back (exception or death)."""
+
+    def __init__(self, objs):
+        self.mon = Monitor(objs)
+        self.saved = None
+        self.stats = {'blocks': 0, 'blocks_rolled_back': 0, 'blocks_died': 0, 'takes_in_rolled_back_blocks': 0, 'filebacked_takes_in_rolled_back_blocks': 0}
+        self.inblock = []
+
+    @property
+    def viol(self):
+        return self.mon.viol
+
+    def snapshot(self):
+        m = self.mon
+        return ({p: list(l) for p, l in m.q.items()}, dict(m.ord), m.seq, set(m.tainted))
+
+    def step(self, i, item, res, push_get):
+        m = self.mon
+        if isinstance(res, tuple) and res and res[0] == 'block':
+            what, depth = res[1], res[2]
+            if what == 'opened' and depth == 0:
+                self.saved = self.snapshot()
+                self.inblock = []
+                self.stats['blocks'] += 1
+            elif what in ('aborted', 'died'):
+                if self.saved is not None:
+                    m.q, m.ord, m.seq, m.tainted = self.saved
+                self.saved = None
+                self.stats['blocks_rolled_back'] += 1
+                self.stats['blocks_died'] += int(what == 'died')
+                self.stats['takes_in_rolled_back_blocks'] += len(self.inblock)
+                self.stats['filebacked_takes_in_rolled_back_blocks'] += sum(1 for x in self.inblock if x)
+            elif what == 'committed':
+                self.saved = None
+            return
+        if res == 'skipped':
+            if item['op'] == 'pull':
+                self.inblock.append(True)
+            return
+        if self.saved is not None and item['op'] == 'pull' and res != 'default' and not (isinstance(res, tuple) and res and res[0] == 'raise'):
+            v = res[0][1]
+            self.inblock.append(isinstance(v, (str, bytes)) and len(v) >= 8)
+        m.step(i, item, res, push_get)
+
+
+def gen_block_history(rng, kind):
+    """(cfg, objs, history, prefixes): queues filled outside any block, then rounds of blocks (ending in commit / an exception / an
+    exception that is not an Exception / process death) holding pulls, peeks and pushes, plain calls between the blocks, and at the
+    end every queue is drained."""
+    mfs = rng.choice([8, 8, 8, 32768])
+    cfg = seqdrv.Config(policy=rng.choice(['none', 'least-recently-stored']), min_file_size=mfs, cull_limit=rng.choice([0, 10]))
+    prefixes = rng.sample([None, 'a', 'b', 'jobs', 'q-1'], rng.choice([1, 1, 2]))
+    objs, index = [], {}
+
+    def ref(o):
+        k = (type(o).__name__, repr(o)[:80], len(repr(o)))
+        if k not in index:
+            index[k] = len(objs)
+            objs.append(o)
+        return index[k]
+    counter = [0]
+
+    def value():
+        counter[0] += 1
+        n = counter[0]
+        r = rng.random()
+        if r < 0.55:
+            return ('queued-value-%05d-' % n) + 'x' * max(0, mfs - 16)         # text, in a file
+        if r < 0.8:
+            return (b'Q%05d' % n) + b'y' * max(3, mfs - 4)                       # bytes, in a file
+        if r < 0.9:
+            return ('job', n, 'z' * mfs)                                        # a pickle, in a file
+        return n                                                                # inline
+    now = [1000.0]
+    hist = []
+    sides_take = ['front', 'front', 'back'] if kind != 'index' else ['front', 'front', 'back']
+
+    def it(op, **a):
+        if rng.random() < 0.2:
+            now[0] += rng.choice([2 ** -10, 0.5, 1])
+        hist.append({'op': op, 'args': a, 'now': now[0]})
+
+    def push(p):
+        it('push', v=ref(value()), prefix=p, side=rng.choice(['back', 'back', 'front']), expire=None, tag=(rng.choice([None, 't1']) if kind != 'index' else None))
+
+    def take(p):
+        op = rng.choice(['pull', 'pull', 'peek']) if kind != 'index' else 'pull'
+        it(op, prefix=p, side=rng.choice(sides_take))
+    for p in prefixes:
+        for _ in range(rng.randint(3, 7)):
+            push(p)
+    for rnd in range(rng.randint(2, 5)):
+        end = rng.choice(['abort', 'abort', 'abort_base', 'die', 'commit'])
+        it('begin', end=end)
+        nested = end != 'die' and rng.random() < 0.25
+        for _ in range(rng.randint(1, 4)):
+            p = rng.choice(prefixes)
+            if rng.random() < 0.75:
+                take(p)
+            else:
+                push(p)
+        if nested:
+            it('begin', end=rng.choice(['commit', 'abort']))
+            take(rng.choice(prefixes))
+            it('end')
+            if rng.random() < 0.5:
+                take(rng.choice(prefixes))
+        it('end')
+        for _ in range(rng.randint(0, 3)):
+            p = rng.choice(prefixes)
+            if rng.random() < 0.6:
+                take(p)
+            else:
+                push(p)
+    now[0] += 1
+    for p in prefixes:
+        npush = sum(1 for h in hist if h['op'] == 'push' and h['args'].get('prefix') == p)
+        side = rng.choice(['front', 'back'])
+        for _ in range(npush + 1):
+            hist.append({'op': 'pull', 'args': {'prefix': p, 'side': side}, 'now': now[0]})
+    return cfg, objs, hist, prefixes
+
+
+def run_block_history(ctx, kind, cfg, objs, hist):
+    """-> (trace or None, BlockMonitor, error)"""
+    r = BlockRunner(ctx, cfg, kind)
+    r.objs = objs
+    bm = BlockMonitor(objs)
+    main = threading.current_thread() is threading.main_thread()
+    if main:
+        old = signal.signal(signal.SIGALRM, _on_alarm)
+        signal.alarm(HANG_SECONDS)
+    tr = err = None
+    try:
+        tr = r.run(hist)
+    except Hang as e:
+        err = e
+        n = len(r.push_gets)
+        bm.mon.flag('op_hang', 'call %d (%s %r) did not return within %d s' % (n, hist[n]['op'] if n < len(hist) else '?',
+                                                                             hist[n]['args'] if n < len(hist) else '', HANG_SECONDS), n)
+    except BaseException as e:  # noqa  (BlockAbortBase must not leave the harness either)
+        if isinstance(e, (KeyboardInterrupt, SystemExit)):
+            raise
+        err = e
+        n = len(r.push_gets)
+        it = hist[n] if n < len(hist) else None
+        bm.mon.flag('op_raised', 'call %d (%s %r) raised %r' % (n, it['op'] if it else '?', it['args'] if it else '', e), n)
+    finally:
+        if main:
+            signal.alarm(0)
+            signal.signal(signal.SIGALRM, old)
+        try:
+            r.close()
+        except Exception:  # noqa
+            pass
+        shutil.rmtree(r.dir, ignore_errors=True)
+    if tr is not None:
+        for i, rec in enumerate(tr.calls):
+            bm.step(i, rec['item'], rec['res'], r.push_gets[i] if i < len(r.push_gets) else None)
+    return tr, bm, err
+
+
+def aborted_blocks(ctx, res, stats, nhist):
+    import random
+    rng = random.Random('C10-blocks-%d' % ctx.seed)
+    agg = stats.setdefault('aborted_blocks', {'histories': 0, 'calls': 0, 'by_kind': {}})
+    seen = set(v.sig for v in res.violations)
+    hangs = 0
+    for h in range(nhist):
+        if hangs >= 2:
+            break
+        kind = BLOCK_KINDS[h % len(BLOCK_KINDS)]
+        cfg, objs, hist, prefixes = gen_block_history(rng, kind)
+        tr, bm, err = run_block_history(ctx, kind, cfg, objs, hist)
+        hangs += int(isinstance(err, Hang))
+        agg['histories'] += 1
+        agg['calls'] += len(hist)
+        agg['by_kind'][kind] = agg['by_kind'].get(kind, 0) + 1
+        for k, v in bm.stats.items():
+            agg[k] = agg.get(k, 0) + v
+        for it in hist:
+            res.count(['block', kind, cfg.cull_limit, cfg.policy, cfg.min_file_size, it['op'], sorted(it['args'].items(), key=repr), it['now']], nontrivial=True)
+        for sig in sorted(set(s for s, _, _ in bm.viol)):
+            if sig in seen:
+                continue
+            seen.add(sig)
+            small = shrink(ctx, cfg, objs, hist, sig, viol_of=lambda hh: run_block_history(ctx, kind, cfg, objs, hh)[1].viol, budget=60)
+            desc = ([d for s, d, _ in run_block_history(ctx, kind, cfg, objs, small)[1].viol if s == sig] or [d for s, d, _ in bm.viol if s == sig])[0]
+            used = sorted(set(h_['args']['v'] for h_ in small if 'v' in h_['args']))
+            remap = {old_i: new_i for new_i, old_i in enumerate(used)}
+            small = [dict(h_, args=dict(h_['args'], v=remap[h_['args']['v']])) if 'v' in h_['args'] else h_ for h_ in small]
+            case = gen_hist.history_json([objs[i_] for i_ in used], small, cfg)
+            case['objs_repr'] = [x[:40] for x in case['objs_repr']]
+            case.update({'check': 'abort_block', 'kind': kind, 'sig': sig, 'prefixes': [repr(p) for p in prefixes], 'calls_before_shrinking': len(hist)})
+            res.violations.append(fw.Violation(sig, '%s [%s; queue calls inside transact blocks that end in an exception / the death of the process; '
+                                                    'disk_min_file_size %d]' % (desc, kind, cfg.min_file_size), case))
+
+
+# ---------------------------------------------------------------------------
 # finding D11: minimal witness, replayed on every run
 
 
@@ -1179,13 +1626,26 @@ def run(ctx):
                 'drained.  A second ledger decides: pull / peek return the empty-queue default only if no live item is queued under the prefix '
                 '(pull_empty_with_live_items, peek_empty_with_live_items), and a pull that directly follows a peek from the same side at the '
                 'same instant on the same queue or on a queue with the same live content returns the same item (pull_disagrees_with_peek); the '
-                'first ledger checks the same histories (order, values, expiry, phantom deliveries).  Concurrency: 2-4 clients with own Cache objects under the deterministic scheduler, random + all schedule prefixes '
+                'first ledger checks the same histories (order, values, expiry, phantom deliveries).  '
+                'Prefixes with pattern and quoting characters (monitor only): for each of the prefixes of META_PREFIXES (containing [ ] * ? % _ \\ quotes, blanks, '
+                'control and non-ASCII characters, and their "-" extensions) a directed history (push back / front, peek and pull on both sides, empty again) and random histories '
+                'mixing 1-3 of them with the prefixes above, decided by the first ledger.  Blocks that do not commit (monitor only): queues carried by a Cache, '
+                'by FanoutCache.cache(name), by a shard of a FanoutCache inside FanoutCache.transact(), and by an Index (push / pull, Index.transact()); '
+                'file-backed text / bytes / pickles at disk_min_file_size 8 or 32768 and inline values; rounds of `with transact():` blocks holding 1-5 '
+                'pulls, peeks and pushes (sometimes a nested block) that end in COMMIT, in an exception, in an exception that is not an Exception, or in the '
+                'death of the process that opened the block (forked, os._exit before COMMIT), plain calls between the blocks, every queue drained at the end; '
+                'the first ledger is saved when the outermost block opens and restored when it is rolled back, so every item pulled inside a rolled-back '
+                'block must still be delivered, once and in its place.  '
+                'Concurrency: 2-4 clients with own Cache objects under the deterministic scheduler, random + all schedule prefixes '
                 'of a fixed length; thorough adds free-running processes.  evaluation = one executed call or one scheduled run.')
     stats = {}
     t0 = _time.time()
     fixed_histories(ctx, res, stats)
     expired_runs(ctx, res, stats)
     stats['runs_s'] = round(_time.time() - t0, 1)
+    metachar_prefixes(ctx, res, stats, 10 if ctx.quick else 120, 40)
+    aborted_blocks(ctx, res, stats, 48 if ctx.quick else 600)
+    stats['families_s'] = round(_time.time() - t0, 1)
     if ctx.quick:
         sequential(ctx, res, 110, 60, stats=stats)
         stats['seq_s'] = round(_time.time() - t0, 1)
@@ -1203,7 +1663,9 @@ def run(ctx):
     res.extra.update({'op_histogram': stats.get('ops', {}), 'prefix_histogram': stats.get('prefixes', {}),
                       'monitor_counters': stats.get('monitor', {}), 'concurrency': stats.get('conc', {}), 'soak': stats.get('soak', {}),
                       'sequential_seconds': stats.get('seq_s'), 'expired_runs': stats.get('expired_runs', {}),
-                      'expired_runs_seconds': stats.get('runs_s')})
+                      'expired_runs_seconds': stats.get('runs_s'), 'metachar_prefixes': stats.get('metachar_prefixes', {}),
+                      'aborted_blocks': stats.get('aborted_blocks', {}),
+                      'metachar_and_block_families_seconds': round(stats.get('families_s', 0) - stats.get('runs_s', 0), 1)})
     res.witnessed['prefix_extension_leak'] = witness_leak()
     res.witnessed['prefix_extension_collision'] = witness_collision()
     return res
@@ -1215,6 +1677,8 @@ def search(ctx, broken):
     stats = {}
     fixed_histories(ctx, res, stats)
     expired_runs(ctx, res, stats)
+    metachar_prefixes(ctx, res, stats, 20 if ctx.quick else 120, 40)
+    aborted_blocks(ctx, res, stats, 80 if ctx.quick else 600)
     sequential(ctx, res, 60 if ctx.quick else 200, 60, correspond=False, stats=stats)
     concurrent(ctx, res, 24 if ctx.quick else 120, 6, stats)
     res.witnessed['prefix_extension_leak'] = witness_leak()
@@ -1247,6 +1711,16 @@ def replay(payload):
                 print('model vs implementation: first mismatch at call', out[0], errs[:1])
                 ok = ok and out[0] == -1
             return ok
+        if kind == 'abort_block':
+            objs, hist, cfg = gen_hist.history_from_json(case)
+            tr, bm, err = run_block_history(ctx, case['kind'], cfg, objs, hist)
+            print('queues carried by: %s; disk_min_file_size %d' % (case['kind'], cfg.min_file_size))
+            for c in (tr.calls if tr is not None else []):
+                print('  now=%-10r %-6s %-60s -> %s' % (c['item']['now'], c['item']['op'],
+                      {k: (repr(objs[v])[:24] if k in ('k', 'v') else v) for k, v in c['item']['args'].items()}, repr(c['res'])[:90]))
+            for sig, desc, i in bm.viol:
+                print('MONITOR call %d: [%s] %s' % (i, sig, desc))
+            return not bm.viol
         if kind == 'conc':
             r = conc_run(case['scenario'], case['items'], case['attempts'], case['schedule_used'], lambda: ctx.scratch('c10r'))
             for sig, desc in r['problems']:
